@@ -112,6 +112,7 @@ def place_effect_attrs(rng, p):
             if h["kind"] in ("exec", "query", "sudo") and rng.random() < 0.35:
                 alias = "alias_" + h["hid"].replace(".", "_") + "_zz"
                 h["sv_attrs"] = [f"serde(alias = \"{alias}\")"]
+                h["sv_attrs_above"] = rng.choice([0, 1])
                 eff["alias"].append((h["hid"], alias))
             for a in h["args"]:
                 ty = p["types"][a["ti"]]
